@@ -221,7 +221,20 @@ fn sender(h: u64, tx: Tx, msgs: u64, clones: bool, seed: u64) {
     let mut r = seed | 1;
     let mut seq = 0u64;
     let mut n = 0;
+    // MAYV_PACE=1: sends are spread over virtual time so that they land around the receivers' timeouts
+    // (0, 50 us, 1 ms, 3 ms after rounding up to whole milliseconds: 0 / 1 / 1 / 3 ms)
+    let pace = envn("MAYV_PACE", 0) != 0;
     while n < msgs {
+        if pace {
+            let d = [0u64, 900_000, 999_000, 1_000_000, 1_001_000, 1_100_000, 2_000_000, 3_000_000][(xs(&mut r) % 8) as usize];
+            if d > 0 {
+                if may::coroutine::is_coroutine() {
+                    may::coroutine::sleep(Duration::from_nanos(d));
+                } else {
+                    c.sleep_ns(d);
+                }
+            }
+        }
         if clones && tx.can_clone() && xs(&mut r) % 5 == 0 {
             // a short-lived clone sends the next value(s)
             let (nh, t2) = clone_tx(&c, h, &tx);
